@@ -3,6 +3,7 @@ package main
 import (
 	"fmt"
 	"go/token"
+	"strings"
 
 	"golang.org/x/tools/go/ssa"
 )
@@ -372,6 +373,22 @@ func checkRekeyOrder(c *Ctx) {
 				if instrDominates(d, s) {
 					before = d
 				}
+			}
+			// the re-keying is decided by equality of the next version's root key with this version's own root key
+			if ctrl != nil {
+				okCond := false
+				if ci := ifOf(ctrl); ci != nil {
+					if call, isCall := stripTrivial(ci.Cond).(*ssa.Call); isCall {
+						if f := staticCallee(&call.Call); f != nil && f.String() == "bytes.Equal" {
+							a, b := roleOf(l, call.Call.Args[0], "", 0), roleOf(l, call.Call.Args[1], "", 0)
+							own := func(r string) bool { return r == "GetRootKey(arg0)" }
+							next := func(r string) bool { return strings.HasPrefix(r, "getRootKey(") && strings.Contains(r, "(arg0+1)") && strings.HasSuffix(r, "#0") }
+							okCond = own(a) && next(b) || own(b) && next(a)
+						}
+					}
+				}
+				c.decide("ORDER-rekey", "deleteVersion re-keys only when the next version's root IS this version's root", l.ipos(s), okCond, "bytes.Equal(GetRootKey(version), root key of version+1)",
+					"the re-keying is not decided by `next root key == (version,1)`: when the next root is another node of this version (a child promoted by a removal) a copy is written under (version,0) that nothing references and nothing ever deletes")
 			}
 			// … or a delete placed before the branch but made to run for the same condition (`a || b || referred`):
 			// a delete reachable from the holds-edge of ANY test of the controlling condition that goes on to reach the save
